@@ -34,6 +34,28 @@ fn main() {
         }
         std::process::exit(0);
     }
+    if args[1] == "pairs" {
+        // debugging aid: every pair a, b < 100 joined by the conjunction that the library fuses into one number
+        let ls = monitors::LangSet::new();
+        for code in t2n_verif::api::LANGS {
+            let info = t2n_verif::spell::info(code);
+            let mut n = 0;
+            for a in 0..100u64 {
+                for b in 0..100u64 {
+                    let text = format!("{} {} {}", t2n_verif::spell::cardinal(code, a), info.conj, t2n_verif::spell::cardinal(code, b));
+                    let out = ls.api(code).replace(&text, 0.0);
+                    if out != format!("{} {} {}", a, info.conj, b) {
+                        n += 1;
+                        if n <= args[2].parse::<usize>().unwrap_or(20) {
+                            println!("[{}] {:?} -> {:?}", code, text, out);
+                        }
+                    }
+                }
+            }
+            println!("[{}] {} fused pairs", code, n);
+        }
+        std::process::exit(0);
+    }
     t2n_verif::core::install_panic_hook();
     let prop = args[1].clone();
     let verif_dir = std::env::var("VERIF_DIR").unwrap_or_else(|_| "/verif".to_string());
